@@ -409,18 +409,20 @@ class CounterToken(Token, FileSystemEventHandler):
 
             tf = self.cache.get(dependency.name, None)
             if tf is None:
+                # The token file has already been removed (e.g. by another
+                # process that watched the job): the state is up-to-date, but
+                # waiting jobs still have to be notified
                 logging.error(
                     "Could not find the taken token for %s (%s)",
                     dependency,
                     dependency.name,
                 )
-                return
-
-            logging.debug("Deleting %s from token cache", dependency.name)
-            del self.cache[dependency.name]
-            self.available += tf.count
-            logging.debug("%s: available %d", self, self.available)
-            tf.delete()
+            else:
+                logging.debug("Deleting %s from token cache", dependency.name)
+                del self.cache[dependency.name]
+                self.available += tf.count
+                logging.debug("%s: available %d", self, self.available)
+                tf.delete()
 
         self.aio_notify()
 
